@@ -109,7 +109,37 @@ func (ex *Exec) callBuiltin(fr *frame, fn *ssa.Builtin, args []Value, site ssa.I
 		ex.badCell(args[0], "cap")
 
 	case "min", "max":
-		ex.unsupported("builtin " + fn.Name())
+		var t types.Type
+		if sig, ok := fn.Type().(*types.Signature); ok && sig.Params().Len() > 0 {
+			t = sig.Params().At(0).Type()
+			if sl, ok := t.(*types.Slice); ok {
+				t = sl.Elem()
+			}
+		}
+		r, ok := args[0].(*sym.Term)
+		if !ok || t == nil || !isInteger(t) {
+			ex.unsupported("builtin " + fn.Name() + " on non-integers")
+		}
+		rest := args[1:]
+		if len(args) == 2 {
+			if sl, ok := args[1].([]Value); ok {
+				rest = sl
+			}
+		}
+		for _, a := range rest {
+			x := a.(*sym.Term)
+			var less *sym.Term
+			if isSigned(t) {
+				less = ex.ctx.Cmp(sym.OSlt, x, r)
+			} else {
+				less = ex.ctx.Cmp(sym.OUlt, x, r)
+			}
+			if fn.Name() == "max" {
+				less = ex.ctx.BNot(ex.ctx.BOr(less, ex.ctx.Cmp(sym.OEq, x, r)))
+			}
+			r = ex.ctx.Ite(less, x, r)
+		}
+		return r
 
 	case "recover":
 		return ex.doRecover(fr)
